@@ -103,6 +103,9 @@ func (n *nodeTxWrapper) UnmarshalJSON(b []byte) error {
 	}
 	oo := make([]*Output, 0, len(txj.Outputs))
 	for _, o := range txj.Outputs {
+		if o == nil {
+			return errors.New("vout entry is null")
+		}
 		out, err := o.toOutput()
 		if err != nil {
 			return err
@@ -111,6 +114,9 @@ func (n *nodeTxWrapper) UnmarshalJSON(b []byte) error {
 	}
 	ii := make([]*Input, 0, len(txj.Inputs))
 	for _, i := range txj.Inputs {
+		if i == nil {
+			return errors.New("vin entry is null")
+		}
 		in, err := i.toInput()
 		if err != nil {
 			return err
@@ -154,6 +160,9 @@ func (o *nodeOutputJSON) fromOutput(out *Output) error {
 }
 
 func (o *nodeOutputJSON) toOutput() (*Output, error) {
+	if o.ScriptPubKey == nil {
+		return nil, errors.New("vout entry has no scriptPubKey")
+	}
 	out := &Output{}
 	s, err := bscript.NewFromHexString(o.ScriptPubKey.Hex)
 	if err != nil {
@@ -165,6 +174,9 @@ func (o *nodeOutputJSON) toOutput() (*Output, error) {
 }
 
 func (i *nodeInputJSON) toInput() (*Input, error) {
+	if i.ScriptSig == nil {
+		return nil, errors.New("vin entry has no scriptSig")
+	}
 	input := &Input{}
 	s, err := bscript.NewFromHexString(i.ScriptSig.Hex)
 	if err != nil {
@@ -241,6 +253,9 @@ func (n *nodeOutputWrapper) UnmarshalJSON(b []byte) error {
 	oj := &nodeOutputJSON{}
 	if err := json.Unmarshal(b, &oj); err != nil {
 		return err
+	}
+	if oj == nil {
+		return errors.New("output is null")
 	}
 
 	o, err := oj.toOutput()
